@@ -1036,6 +1036,23 @@ func hexChar(c rune) rune {
 	}
 }
 
+// asciiLower returns s with the ASCII upper case letters mapped to lower case
+// and every other character left alone.
+func asciiLower(s string) string {
+	for i := range len(s) {
+		if c := s[i]; c >= 'A' && c <= 'Z' {
+			b := []byte(s)
+			for j := i; j < len(b); j++ {
+				if b[j] >= 'A' && b[j] <= 'Z' {
+					b[j] += 'a' - 'A'
+				}
+			}
+			return string(b)
+		}
+	}
+	return s
+}
+
 // identToken examines ident and returns the appropriate token value. If ident
 // is not a jsonpath reserved word ident, it returns IDENT_P.
 //
@@ -1051,8 +1068,9 @@ func identToken(ident string) rune {
 		return FALSE_P
 	}
 
-	// Now try case-insensitive keywords.
-	switch strings.ToLower(ident) {
+	// Now try case-insensitive keywords. Only the ASCII letters fold: Unicode
+	// case mapping would also take U+212A KELVIN SIGN for a "k".
+	switch asciiLower(ident) {
 	case "is":
 		return IS_P
 	case "to":
